@@ -1,4 +1,5 @@
 from abc import abstractmethod
+from math import ceil
 from collections import OrderedDict
 from typing import Any
 from typing import Dict
@@ -79,6 +80,16 @@ class BasePrimary(BaseInstrument):
                 If ``None`` (default), it uses the default value
                 (See :attr:`default_init_state`).
         """
+
+    def _get_n_steps(self, time_horizon: float) -> int:
+        # Number of time points to cover ``time_horizon``: ``ceil(time_horizon / dt) + 1``.
+        # A ratio within floating point error of an integer ``k`` (e.g. ``(5 / 12) / (1 / 12)
+        # == 5.000000000000001``) counts as ``k``, not ``k + 1``.
+        ratio = time_horizon / self.dt
+        nearest = round(ratio)
+        if abs(ratio - nearest) <= 1e-9 * max(1.0, abs(ratio)):
+            return nearest + 1
+        return ceil(ratio) + 1
 
     def register_buffer(self, name: str, tensor: Tensor) -> None:
         """Adds a buffer to the instrument.
